@@ -13,7 +13,7 @@ merged dump vs. the model's export of the view (raw container, entry by entry), 
 block vs. the model's merged block (identifiers renamed by first occurrence), a random
 follow-up patch created on the source and opened as [merged, patch] and as source + [patch],
 the same follow-up performed on the merged record itself (the two patch containers must be
-identical, as the model says), refusals.
+identical, as the model says) and that patch opened on top of the original containers, refusals.
 
 Oracle on the code alone (no model): merged dump == source dump; ih5_meta of the still-open
 source, its dump and the SHA-256 of every source file before/after the merge; identity fields
@@ -152,8 +152,19 @@ def observe(case) -> Dict[str, Any]:
                 out["mflags"] = _apply_all(mr, case["follow"])
                 mr.commit_patch()
                 out["follow_own_view"] = _view(mr)
-                out["own_patch_raw"] = ih5lib.dump_raw(mr.ih5_files[-1])
+                own_pf = Path(mr.ih5_files[-1])
+                out["own_patch_raw"] = ih5lib.dump_raw(own_pf)
                 mr.close()
+                # -- and the patch written on the merged record applied to the original containers
+                try:
+                    s3 = cls(files + [own_pf], "r")
+                    opened.append(s3)
+                    out["own_on_src_view"] = _view(s3)
+                    s3.close()
+                except vlib.CaseTimeout:
+                    raise
+                except Exception as e:  # noqa: BLE001
+                    out["own_on_src_err"] = f"{type(e).__name__}: {e}"[:200]
                 # -- stub-containing sets (manifest-aware class)
                 if case.get("stub") and cls is IH5MFRecord:
                     mf = Path(str(pf) + reclib.MF_SUFFIX)
@@ -250,6 +261,10 @@ def oracle(o: Dict[str, Any], case) -> List[Dict[str, Any]]:
                   "only_in_source": [e for e in views["follow_src_view"] if e not in views["follow_merged_view"]][:3]})
     if o["mflags"] != o["fflags"] or o["follow_own_view"] != o["follow_src_view"]:
         F.append({"cls": "patching-merged-differs", "what": "the follow-up operations behave differently on the merged record"})
+    if "own_on_src_err" in o:
+        F.append({"cls": "merged-patch-not-applicable", "what": f"source + [patch written on the merged record] cannot be opened: {o['own_on_src_err']}"})
+    elif o["own_on_src_view"] != o["follow_src_view"]:
+        F.append({"cls": "merged-patch-result-differs", "what": "a patch written on the merged record gives a different dump on the original containers"})
     # stubs
     for k in ("ref_stub", "ref_stub2"):
         if k in o and (o[k]["raised"] != "ValueError" or not o[k]["disk_unchanged"]):
@@ -375,8 +390,8 @@ def fixed_cases() -> List[Dict[str, Any]]:
 def gen_cases(ctx) -> List[Dict[str, Any]]:
     rng = ctx.rng
     cases = fixed_cases()
-    ntarget = ctx.budget(200, 2500)
-    nrand = ctx.budget(500, 6500)
+    ntarget = ctx.budget(150, 1600)
+    nrand = ctx.budget(330, 4000)
     maxops = ctx.budget(18, 32)
     for i in range(ntarget + nrand):
         keys = rng.sample(KEY_POOL, rng.randint(3, 5))
